@@ -36,6 +36,11 @@ DETECT = {   # name: (check id, caught by (target signature config), first resul
  "C18b": ("C18", "rl_xv overlap / crash:SIGSEGV", "caught at once"),
  "C19": ("C19", "oc_xv destroyed-while-borrowed", "missed at first; caught after adding the slow-failing constructor op"),
  "C19b": ("C19", "oc_xv destroyed-while-borrowed / poisoned-access (a0R0|a0yr0|yi0)", "missed at first; caught after adding the interrupt op"),
+ "C01c": ("C01", "mutex_xv mutual-exclusion (generated m0c:gen2x2, m0c:pLL,pL,pL)", "missed at first; caught after adding contending-mode generated programs"),
+ "C02c": ("C02", "sem_xv lost-wakeup (generated 0o:gen3x1)", "caught at once"),
+ "C03c": ("C03", "cv_xv notification-overwritten-by-interrupt (m:pW,pW,pA,ppi0i1, generated m:gen3x1)", "missed at first; caught after adding the interrupt op"),
+ "C06c": ("C06", "rw_xv blocked-forever (q:W|w:tdev, q:W|x,s)", "caught at once"),
+ "C19c": ("C19", "oc_xv recycle-wrong-object (generated gen3x1, gen2x2)", "caught at once"),
  "C20": ("C20", "subfs escape", "caught at once"),
 }
 for d in sorted(glob.glob(os.path.join(V, "seeded", "C*"))):
